@@ -3,15 +3,15 @@
 import ast
 import re
 from .core import AnalysisError
-from .astutil import src, conjuncts, strip_doc
+from .astutil import src, conjuncts, strip_doc, reach_conditions, expand_locals, single_defs
 from .tables import pyx_source, strip_comments
 
 ISO = 'chython.algorithms.isomorphism'
 PYX = 'chython/algorithms/_isomorphism.pyx'
 
 
-def classify_guard(c):
-    s = src(c)
+def classify_guard(c, expand=None):
+    s = src(expand(c)) if expand else src(c)
     if isinstance(c, ast.Compare) and len(c.ops) == 1:
         l, r, op = src(c.left), src(c.comparators[0]), c.ops[0]
         if isinstance(op, ast.In) and r == 'scope':
@@ -43,22 +43,19 @@ def rule_admission_guards(ck, repo, R):
             parents[c] = p
     sites = [n for n in ast.walk(f.node) if isinstance(n, ast.Call) and src(n.func) == 'stack.append']
     ck.require(len(sites) == 2, f'_get_mapping: expected 2 admission sites, found {len(sites)}')
+    aliases = {k for k, v in single_defs(f.node).items() if isinstance(v, ast.Subscript)}  # obon = o_bonds[o_n], s_closures = query_closures[s_n]
     for site in sites:
         guards = {}
-        unknown = []
-        child, p = site, parents.get(site)
+        for c in reach_conditions(site, f.node, parents):
+            k = classify_guard(c, lambda e: expand_locals(e, f.node, only=aliases))
+            if k:
+                guards[k] = src(c)
         in_while = False
+        p = parents.get(site)
         while p is not None and p is not f.node:
-            if isinstance(p, ast.If) and child in p.body:
-                for c in conjuncts(p.test):
-                    k = classify_guard(c)
-                    if k:
-                        guards[k] = src(c)
-                    else:
-                        unknown.append(src(c))
             if isinstance(p, ast.While):
                 in_while = True
-            child, p = p, parents.get(p)
+            p = parents.get(p)
         kind = 'extension' if in_while else 'initial'
         need = ['SCOPE', 'ATOM'] if kind == 'initial' else ['SCOPE', 'INJECTIVE', 'BOND', 'ATOM', 'CLOSURE-SET', 'CLOSURE-BONDS']
         for g in need:
@@ -67,9 +64,12 @@ def rule_admission_guards(ck, repo, R):
                       f'(present guards: {sorted(guards)})', file=m.relpath, line=site.lineno, func='_get_mapping', construct=src(site))
     # the closure set is "mapped neighbours of the candidate except the atom we came from"
     s = src(f.node)
-    ck.decide('o_closures = o_bonds[o_n].keys() & reversed_mapping.keys()' in s and 'o_closures.discard(n)' in s, R, 'closure-set:definition', None,
+    cdefs = [src(expand_locals(n.value, f.node, only=aliases)) for n in ast.walk(f.node) if isinstance(n, ast.Assign) and src(n.targets[0]) == 'o_closures']
+    ck.decide(cdefs == ['o_bonds[o_n].keys() & reversed_mapping.keys()'] and 'o_closures.discard(n)' in s, R, 'closure-set:definition', cdefs,
               'o_closures is no longer (neighbours of the candidate that are already mapped) minus the parent atom', file=m.relpath, line=f.lineno, func='_get_mapping')
-    ck.decide('{mapping[m] for m, _ in query_closures[s_n]}' in s, R, 'closure-set:pattern-side', None,
+    pats = [src(expand_locals(c, f.node, only=aliases)) for n in ast.walk(f.node) if isinstance(n, ast.Compare) and len(n.ops) == 1 and isinstance(n.ops[0], ast.Eq)
+            for c in (n.left, n.comparators[0]) if 'o_closures' in (src(n.left), src(n.comparators[0])) and src(c) != 'o_closures']
+    ck.decide(pats == ['{mapping[m] for m, _ in query_closures[s_n]}'], R, 'closure-set:pattern-side', pats,
               'the pattern side of the closure test is no longer the images of the ring-closure partners of the pattern atom', file=m.relpath, line=f.lineno)
     # bookkeeping that makes INJECTIVE meaningful
     ck.decide('reversed_mapping[n] = current' in s and 'del mapping[reversed_mapping.pop(x)]' in s, R, 'injective:bookkeeping', None,
